@@ -10,7 +10,7 @@
 (* Statement: "Loading any hashring configuration either produces a usable *)
 (* hashring or reports an error in bounded time; it never hangs".  An      *)
 (* error -- at load time or when the ring is asked -- is always accepted;  *)
-(* a missing answer after the deadline (20 s for work that takes           *)
+(* a missing answer after the deadline (60 s for work that takes           *)
 (* milliseconds) or a crash is not.                                        *)
 (***************************************************************************)
 EXTENDS TraceLib, Hashring
